@@ -666,6 +666,7 @@ class _Sched:
         self.apply_edit = apply_edit
         self.finished = [False] * n
         self.released = False
+        self.blocked: set = set()  # threads waiting for their turn
         self.tid = threading.local()
 
     def _advance(self):
@@ -686,8 +687,11 @@ class _Sched:
         if tid is None:
             return fn()
         with self.cv:
+            self.blocked.add(tid)
+            self.cv.notify_all()
             while not self.released and not (self.pos < len(self.schedule) and self.schedule[self.pos] == ["step", tid]):
                 self.cv.wait(0.05)
+            self.blocked.discard(tid)
             if self.released:
                 raise _Released()
             try:
@@ -829,9 +833,15 @@ class ThreadsStream(Stream):
 
         deadline = time.time() + patience
         with sched.cv:
-            while sched.pos < len(sched.schedule) and not all(sched.finished) and time.time() < deadline:
+            # settled: the schedule is used up (or everybody returned) and every thread that has not returned is
+            # waiting for a turn that will not come — only then is "pending" a fact and not a race with the observer
+            def settled():
+                over = sched.pos >= len(sched.schedule) or all(sched.finished)
+                return over and all(sched.finished[i] or i in sched.blocked for i in range(n))
+
+            while not settled() and time.time() < deadline:
                 sched.cv.wait(0.05)
-            stuck = sched.pos < len(sched.schedule) and not all(sched.finished)
+            stuck = not settled()
             cache = [[k, _parse_head(str(v).split("|")[0])] for k, v in inner.items()][::-1]
             snapshot = list(results)
             sched.released = True
